@@ -27,3 +27,11 @@ Definition map_keys {V : Type} (f : N -> N) (t : list (N * V)) : list (N * V) :=
 Definition relabel_inst (f : N -> N) (i : Scoring.inst) : Scoring.inst :=
   {| Scoring.dt := Scoring.dt i; Scoring.alts := map f (Scoring.alts i); Scoring.n_alt := Scoring.n_alt i;
      Scoring.n_vot := Scoring.n_vot i; Scoring.prof := map_mult f (Scoring.prof i) |}.
+
+(* the instance read by the pairwise functions (C07): names keep their text, keys are renamed *)
+Definition relabel_pw_inst (f : N -> N) (i : Pairwise.inst) : Pairwise.inst :=
+  Pairwise.mkInst (map_keys f (Pairwise.alts_name i)) (Pairwise.num_alternatives i) (Pairwise.num_voters i)
+                  (map_mult f (Pairwise.mult i)) (Pairwise.data_type i).
+(* dict of dicts keyed by alternatives *)
+Definition map_table (f : N -> N) (t : Pairwise.table) : Pairwise.table :=
+  map (fun ar => (f (fst ar), map_keys f (snd ar))) t.
